@@ -524,6 +524,24 @@ func c39Extras() []c39ExtraArg {
 
 			return Configuration{Certificates: cs}, true
 		}},
+		{"certs:reissued-same-key-serial-and-subject", func(_ *c39Env, cur c39Snap) (Configuration, bool) {
+			// the last certificate issued again from its own template with a later expiry: same key, same serial
+			// number, same subject and issuer - another certificate all the same
+			if len(cur.Certs) == 0 || cur.Certs[len(cur.Certs)-1].x509Cert == nil {
+				return Configuration{}, false
+			}
+			cs := append([]Certificate{}, cur.Certs...)
+			last := cs[len(cs)-1]
+			tpl := *last.x509Cert
+			tpl.NotAfter = tpl.NotAfter.AddDate(5, 0, 0)
+			r, err := NewCertificate(last.privateKey, tpl)
+			if err != nil || bytes.Equal(r.x509Cert.Raw, last.x509Cert.Raw) {
+				return Configuration{}, false
+			}
+			cs[len(cs)-1] = *r
+
+			return Configuration{Certificates: cs}, true
+		}},
 		{"certs:renewed-over-the-same-key", func(_ *c39Env, cur c39Snap) (Configuration, bool) {
 			// another certificate (new serial, new validity) issued over the private key of the current one
 			if len(cur.Certs) == 0 {
